@@ -236,6 +236,9 @@ class Run:
         self.stats = collections.Counter()
         self.kdis = []
         self.times = collections.Counter()
+        self.cases = {}               # actual cases of this run, one per kind (evidence samples)
+    def sample(self, kind, **kw):
+        if kind not in self.cases: self.cases[kind] = {k: (v[:400] if isinstance(v, str) else v) for k, v in dict(kind=kind, **kw).items()}
 
     def fail(self, cls, m, line, out, extra=None):
         self.fails[cls] += 1
@@ -245,7 +248,14 @@ class Run:
             if extra: self.samples[cls].update(extra)
 
 def model_lines(ctx, lines):
-    rc, outs, err = ctx.run_lines(build.model_exe(), lines)
+    for attempt in range(40):
+        try:
+            rc, outs, err = ctx.run_lines(build.model_exe(), lines)
+            break
+        except (FileNotFoundError, PermissionError, OSError):
+            # the shared lean project is being re-linked by a concurrent check: wait for the driver to reappear
+            if attempt == 39: raise
+            time.sleep(3)
     if rc != 0 or len(outs) != len(lines): raise RuntimeError("model driver failed: " + err[-300:])
     return outs
 
@@ -300,7 +310,9 @@ def k_table_select(R, m, exe, want_complete=True):
             if c != want:
                 st["disagreements"] += 1
                 R.kdis.append({"kind": "select", "module": genmod_ioc.module_text(m), "op": l, "c": c, "model": want})
-            else: ctx.count_nontrivial(("select", m["name"], l))
+            else:
+                ctx.count_nontrivial(("select", m["name"], l))
+                R.sample("select", op=l, c=c, model=mdl, table=tbl_txt)
     return info, mem, elems, ctab, ti, names_by_ti, tbl_txt, ids, unknown
 
 def check_module(R, m, exe, nvals, nmut, findings):
@@ -375,6 +387,7 @@ def check_module(R, m, exe, nvals, nmut, findings):
                 ctx.count_nontrivial(("rt", syn, m["name"], fsx[:100]))
                 R.stats["roundtrips_ok"] += 1
                 last_rt[(fsx, syn)] = o.split()[1]
+                R.sample("roundtrip-" + syn, module=genmod_ioc.module_text(m), op=l, c=o)
                 valid.append((syn, row, fsx, o.split()[1]))
         elif kind == "rowder":
             # BER framing: the member's content (inside its EXPLICIT context tag) is the row type's own DER
@@ -508,11 +521,15 @@ def check_module(R, m, exe, nvals, nmut, findings):
                 elif paired.get(pid) != dict((e[0], e[1]) for e in elems).get(orow):
                     R.fail(f"decoded-type-not-paired-type:{syn}", m, l, o)
                 elif kind == "valid" and not frame_same(m, env, p[2], fsx): R.fail(f"valid-decode-differs:{syn}", m, l, o)
-                else: ctx.count_nontrivial((kind, syn, m["name"], h[:60]))
+                else:
+                    ctx.count_nontrivial((kind, syn, m["name"], h[:60]))
+                    if kind == "mismatch": R.sample("mismatch-bytes-valid-for-paired-type", op=l, frame=fsx, c=o)
             else:
                 got = "fail"          # RC_FAIL / RC_WMORE on a complete frame: both are "not decoded"
                 if kind == "valid": R.fail(f"valid-frame-rejected:{syn}", m, l, o)
-                else: ctx.count_nontrivial((kind, syn, m["name"], h[:60]))
+                else:
+                    ctx.count_nontrivial((kind, syn, m["name"], h[:60]))
+                    R.sample(kind + "-rejected", op=l, frame=fsx, c=o, model=model_of.get(k), model_op=(glines[gk.index(k)] if k in model_of else None))
         # --- K: the model's prediction from the row decoders' outcomes
         if k in model_of:
             gst["lines"] += 1
@@ -634,7 +651,9 @@ def framing_correspondence(R):
             if cc != mo_:
                 st2["disagreements"] += 1
                 R.kdis.append({"kind": "uper_open_type_get", "op": l, "c": c[:100], "model": mo_})
-            else: ctx.count_nontrivial(("oget", l))
+            else:
+                ctx.count_nontrivial(("oget", l))
+                if mo_ == "fail": R.sample("uper_open_type_get-rejects", op=l, c=c, model=mo_)
         ctx.cov["evaluations"] += len(lines) + len(glines)
     finally:
         b.cleanup()
@@ -755,5 +774,4 @@ def run(ctx):
                        "all row mismatches, unknown ids, truncations + bit flips; distinct = distinct (kind, syntax, module, input); non-trivial = reached "
                        "the selector / open type decoder (not a load or build error)")
     for cls in list(R.samples)[:3]: ctx.cov["samples"].append(R.samples[cls])
-    if not ctx.cov["samples"]:
-        ctx.cov["samples"].append({"op": "@Frame rt der (seq (ident (int 7)) (value (open Row2 ...)))", "note": "see predicate.open_types"})
+    ctx.cov["samples"] += list(R.cases.values())[:10]
